@@ -267,8 +267,8 @@ func famNullHoles(r *Run) {
 // jpgo: integers beyond 2^53 in the input, and empty lines inside it
 func cliBigAndBlank() (inputs []string, exprs []string) {
 	inputs = []string{`{"id": 9007199254740993, "neg": -9007199254740993, "f": 1e400}`, `{"id": 9007199254740993, "neg": -9007199254740993}`, `[9007199254740993, 18446744073709551617, 123456789012345678901234567890]`,
-		"{\"a\": [1,\n\n2]}", "{\"a\": 1}\n\n} trailing garbage", "\n\n{\"a\": 1}", "{\"a\": 1}\n\n", "{\"a\":\n\n\n {\"b\": [1, 2]}}", "{\"a\": 1}\n\n{\"a\": 2}", "[1,\r\n\r\n2]"}
-	exprs = []string{"@", "id", "a", "id == `9007199254740992`", "id > `1`", "type(id)", "abs(neg)", "[0]", "[1] > [0]", "to_string(@)", "a.b", "sum(@)"}
+		`{"a": "\\u003cb\\u003e", "url": "http://h/?a=1&b=2", "lt": "<>&", "esc": "\\u0026 \\\\u003c \\n"}`, "{\"a\": [1,\n\n2]}", "{\"a\": 1}\n\n} trailing garbage", "\n\n{\"a\": 1}", "{\"a\": 1}\n\n", "{\"a\":\n\n\n {\"b\": [1, 2]}}", "{\"a\": 1}\n\n{\"a\": 2}", "[1,\r\n\r\n2]"}
+	exprs = []string{"@", "id", "a", "id == `9007199254740992`", "id > `1`", "type(id)", "abs(neg)", "[0]", "[1] > [0]", "to_string(@)", "a.b", "sum(@)", "url", "lt", "esc", "[to_string(@)]", "to_string(lt)", "join('<', [lt, url])"}
 	return
 }
 
